@@ -660,7 +660,7 @@ class Corr:
         if variant == "symmetric":
             newcontent = []
             for t in range(1, self.T - 1):
-                if (self.content[t - 1] is None) or (self.content[t + 1] is None):
+                if (self.content[t - 1] is None) or (self.content[t] is None) or (self.content[t + 1] is None):
                     newcontent.append(None)
                 else:
                     newcontent.append((self.content[t + 1] - 2 * self.content[t] + self.content[t - 1]))
@@ -670,7 +670,7 @@ class Corr:
         elif variant == "big_symmetric":
             newcontent = []
             for t in range(2, self.T - 2):
-                if (self.content[t - 2] is None) or (self.content[t + 2] is None):
+                if (self.content[t - 2] is None) or (self.content[t] is None) or (self.content[t + 2] is None):
                     newcontent.append(None)
                 else:
                     newcontent.append((self.content[t + 2] - 2 * self.content[t] + self.content[t - 2]) / 4)
